@@ -125,12 +125,12 @@ def gen_enumerated(tier, seed, workdir):
     def cb():
         cfg = os.path.join(d, "Gen_cb.cfg")
         vk.write_cfg(cfg, "Spec", dict(FULL=sz["cb_full"], MAXG=4, TxFile=txf, FnFile=fnf))
-        vk.tlc_mc(d, "Gen_Callbacks", cfg, workers=1, timeout=900)
+        vk.tlc_mc(d, "Gen_Callbacks", cfg, workers=1, timeout=900, reuse=False)   # run for its side effect (JsonSerialize)
 
     def au():
         cfg = os.path.join(d, "Gen_au.cfg")
         vk.write_cfg(cfg, "Spec", dict(FULLGRAPH=sz["au_full"], OutFile=auf))
-        r = vk.tlc_mc(d, "Gen_Auth", cfg, workers=1, timeout=900)
+        r = vk.tlc_mc(d, "Gen_Auth", cfg, workers=1, timeout=900, reuse=False)
         m = re.search(r'<<"CASES", (\d+), "STATES", (\d+), "ACTS", (\d+)>>', r["out"])
         info["au"] = [int(x) for x in m.groups()] if m else None
     vk.pmap(lambda f: f(), [cb, au], 2)
@@ -355,13 +355,23 @@ def run_family(tier, seed, binary=None):
     shards = {"authz": sz["az_shards"], "cb": sz["cb_shards"], "cbfn": 1, "auth": sz["au_shards"]}
     lines, fails = {}, []
 
+    infra = {}
+
     def pipeline(sub):
-        ls = drive(binary, sub, items[sub], workdir, "main", shards[sub])
-        fl = validate(sub, ls, workdir, "main")
-        return sub, ls, fl
+        # a driver that cannot even set up its chains (e.g. because a handler its honest set-up needs is broken) must not
+        # hide what the other drivers found: the error is kept per sub-pipeline and raised for ITS property (probe_known)
+        try:
+            ls = drive(binary, sub, items[sub], workdir, "main", shards[sub])
+            fl = validate(sub, ls, workdir, "main")
+            return sub, ls, fl
+        except vk.Infra as e:
+            infra[sub] = str(e)[:3000]
+            return sub, [], []
     for sub, ls, fl in vk.pmap(pipeline, list(items), 4):
         lines[sub] = ls
         fails.extend([list(f) for f in fl])
+    if len(infra) == len(items):
+        raise vk.Infra("every driver failed: %s" % infra)
     vk.log("authapps: drove and validated %d steps, %d monitor failures (%.1fs)" % (sum(len(v) for v in lines.values()), len(fails), time.time() - t0))
     th.join()
     if errors:
@@ -372,7 +382,7 @@ def run_family(tier, seed, binary=None):
     sanity = [f for f in fails if f[2] == "X"]
     tainted = set(f[0] for f in sanity)
     fails = [f for f in fails if f[2] != "X" and f[0] not in tainted]
-    if sanity and not [f for f in fails if f[2] in PROPS]:
+    if sanity and not infra and not [f for f in fails if f[2] in PROPS]:
         raise vk.Infra("harness sanity monitors failed (infrastructure): %s" % sanity[:5])
     cov = collections.Counter()
     sigs = collections.defaultdict(set)
@@ -389,13 +399,15 @@ def run_family(tier, seed, binary=None):
         failing.setdefault(tr, by_id.get(tr))
     samples = {}
     for sub, ls in lines.items():
+        if not ls:
+            continue
         first = json.loads(ls[0])["tr"]
         samples[sub] = {"case": {k: v for k, v in by_id.get(first, {}).items() if k != "sub"},
                         "trace": [slim(json.loads(l)) for l in ls[:12] if json.loads(l)["tr"] == first][:6]}
     counts = {sub: {"cases": len(items[sub]), "steps": len(lines[sub])} for sub in items}
     result.update({"tier": tier, "seed": seed, "traces": sum(len(v) for v in items.values()), "steps": sum(len(v) for v in lines.values()),
                    "fails": fails, "coverage": dict(cov), "sigs": {p: len(s) for p, s in sigs.items()}, "failing_schedules": failing,
-                   "sample": samples, "counts": counts, "sanity": sanity[:50], "gen_info": gen.get("info"), "wall": time.time() - t0})
+                   "sample": samples, "counts": counts, "sanity": sanity[:50], "infra": infra, "gen_info": gen.get("info"), "wall": time.time() - t0})
     return result
 
 
@@ -445,7 +457,7 @@ def evidence(pid, res):
         "states": mc.get("distinct", 0),
         "transitions": mc.get("generated", 0),
         "traces_validated_against_impl": sum(counts.get(s, {}).get("cases", 0) for s in subs),
-        "samples": [res.get("sample", {}).get(s) for s in subs],
+        "samples": [x for x in (res.get("sample", {}).get(s) for s in subs) if x] or ["no trace recorded"],
         "evaluations": sum(counts.get(s, {}).get("steps", 0) for s in subs),
         "distinct_nontrivial": res.get("sigs", {}).get(pid, 0),
         "rule": RULES[pid],
@@ -500,6 +512,9 @@ def match_known(fail, schedule, known):
 
 def probe_known(pid, known, res):
     """For every listed open finding of this family: report whether its input class still fails in this run."""
+    broken = {s: m for s, m in res.get("infra", {}).items() if s in SUB_OF_PROP[pid]}
+    if broken:
+        raise vk.Infra("driver of %s did not run (infrastructure): %s" % (pid, broken))
     # sanity failures of this property's drivers without any clean failure of this property: not a verdict
     mine = [f for f in res.get("sanity", []) if any(str(f[0]).startswith(PREFIX[s]) for s in SUB_OF_PROP[pid])]
     if mine and not [f for f in res.get("fails", []) if f[2] == pid]:
